@@ -85,6 +85,44 @@ def pred_c13b(line, st):
         if r[0] == "same":
             return "encrypted link: the same value sent twice produced identical wire bytes (%s)" % " ".join(a)
         return None
+    if op == "prop.aio2.arrays":
+        def arrs(tok):
+            if tok == "none":
+                return []
+            return [[] if a == "e" else [int(x) for x in a.split(";")] for a in tok.split("|")]
+        cls, auth, enc, chunked, sched, npeers, tl, good = a[0], a[1] == "1", a[2] == "1", a[3] == "1", a[4], int(a[5]), int(a[6]), int(a[7])
+        st.setdefault("arrays", set()).add((cls, sched, npeers))
+        for i in range(npeers):
+            sent, got = arrs(a[8 + i]), arrs(r[i])
+            mode = "%s auth=%d enc=%d chunked=%d %s peer %d of %d" % (cls, auth, enc, chunked, sched, i, npeers)
+            if i != tl:
+                if got != sent:
+                    return "arrays (%s): sent %d arrays, received %d, or an array altered / partial / mixed (untampered link)" % (mode, len(sent), len(got))
+            elif auth:
+                if got != sent[:len(got)]:
+                    return "arrays (%s): tampered authenticated link: the received arrays are not a prefix of the sent ones (partial or mixed array)" % mode
+                if len(got) < good:
+                    return "arrays (%s): tampered authenticated link: an array completely in front of the modification was lost" % mode
+        return None
+    if op == "prop.aio2.arraymix":
+        kind, cls, chunked = a[0], a[1], a[4] == "1"
+        delim = chunked and cls == "select"
+        out = " ".join(r)
+        if kind == "recvmix":
+            if delim:
+                return None      # single values carry no delimiter there: no array can be completed, nothing is delivered wrongly
+            if out != "single:1 array:[2,3]" and out != "single:3 array:[1,2]" and "single:-" not in out:
+                return "array-recvmix: untampered link, values 1,2,3 sent; an array Receive that timed out kept value 1 in its queue, the single-value Receive then returned 2 and the next array Receive [1,3]: values delivered out of order (%s)" % out
+            return None
+        if kind == "sendrefused":
+            if out not in ("[2,3]",):
+                return "array-sendrefused: Send([1, <too long>]) returned false after writing 1, Send([2,3]) returned true; the receiver got %s instead of [2,3] (untampered link, a mixed array)" % out
+            return None
+        if kind == "othersize":
+            if delim and "[8]" in out:
+                return "array-othersize: chunked mode, arrays [7,8],[9] sent, the receiver asked for one value: 7 was discarded and the partial array [8] delivered (%s)" % out
+            return None
+        return None
     if op == "prop.aio2.array":
         sent, got, rets = ilist(a[5]), ilist(r[0]), r[1]
         if got != sent or "0" in rets:
